@@ -400,7 +400,7 @@ async fn run_case(case: &Case) -> CaseOut {
         }
         let f = frags.into_iter().next().unwrap();
         // shape
-        let exp_seq = (case.seq + k as u8) & 0x0F;
+        let exp_seq = ((case.seq as usize + k) & 0x0F) as u8;
         if f.func != func::RESPONSE || f.uns || f.seq != exp_seq || f.fir != (k == 0) {
             out.fail(Fail::new("series-shape", format!("fragment #{k}: func={} uns={} fir={} seq={} (expected solicited, fir={}, seq={})", f.func, f.uns, f.fir, f.seq, k == 0, exp_seq)));
             return out;
